@@ -518,5 +518,13 @@ def run(ctx) -> None:
     rule_r1(ctx, an, eff)
     rule_r2(ctx, an)
     rule_r3(ctx, an)
+    from . import c04
+
+    gs = c04.GenBranch(ctx, an, an.ctx_method("get_resource_nowait"))
+    ga = c04.GenBranch(ctx, an, an.ctx_method("get_resource"))
+    if gs.ok and ga.ok:
+        c04.rule_stored_before_return(ctx, an, gs, ga, "C03.R3")
+    else:
+        ctx.rep.unrecognised("C03.R3", gs.f, gs.f.node, "generation branch not recognised")
     rule_r4(ctx, an)
     rule_r5(ctx, an)
